@@ -447,6 +447,9 @@ class Gen:
                     q = rng.random()
                     if q < 0.45:
                         st["eqform"] += 1
+                        if rng.random() < 0.07:
+                            v = ""                  # `--name=`: the empty string is the argument, nothing else is consumed
+                            st["empty_attached"] = st.get("empty_attached", 0) + 1
                         words.append(nm + "=" + v)
                     elif q < 0.95:
                         words += [nm, v]
@@ -834,6 +837,61 @@ class Gen:
         self.stats["atof_ops"] = self.stats.get("atof_ops", 0) + len(ops)
         return {"name": "atof%d" % cid, "ops": ops, "sticky": 0}
 
+    # ---------------------------------------------------------------- real range on doubles
+    @staticmethod
+    def frac_dec(fr):
+        """exact decimal string of a dyadic rational (fractions.Fraction with a power-of-two denominator)"""
+        neg = fr < 0
+        fr = -fr if neg else fr
+        k = fr.denominator.bit_length() - 1
+        n = fr.numerator * 5 ** k
+        d = str(n).rjust(k + 1, "0")
+        t = d[:len(d) - k] + ("." + d[len(d) - k:] if k else "")
+        return ("-" if neg else "") + t
+
+    def realrange_case(self, cid):
+        """verify_real_range compares DOUBLES: arguments of 16-60 digits at, next to and half-way between the doubles
+        around a bound (where the exact decimal order and the order of the rounded values differ)"""
+        import math
+        from fractions import Fraction
+        rng = self.rng
+        ops = []
+        for _ in range(24):
+            b = rng.choice(["0", "1", "0.1", "0.3", "-0.1", "2.5", "1e-3", "100", "1e22", "1e23", "-1.5", "0.7", "1e-320", "4.9e-324", "1.7976931348623157e308",
+                            "0.1000000000000000055511151231257827", "3.14159265358979323846264338327950288", "9007199254740993", "1e-5", "-2.2250738585072014e-308",
+                            repr(rng.uniform(-10, 10)), "%d.%d" % (rng.randrange(0, 100), rng.randrange(0, 10 ** 20))])
+            form = rng.choice(["x>=%s", "x>%s", "x<=%s", "x<%s", "%s<=x<=LIM", "%s<x<LIM", "LO<=x<=%s", "LO<x<%s"])
+            f = float(b)
+            rtext = (form % b).replace("LIM", repr(abs(f) * 2 + 1) if math.isfinite(f) else "1e400").replace("LO", repr(-abs(f) * 2 - 1))
+            up, dn = math.nextafter(f, math.inf), math.nextafter(f, -math.inf)
+            F = Fraction(f)
+            cands = [F]
+            if math.isfinite(up):
+                cands += [(F + Fraction(up)) / 2, Fraction(up)]
+            if math.isfinite(dn):
+                cands += [(F + Fraction(dn)) / 2, Fraction(dn)]
+            c = rng.choice(cands)
+            t = self.frac_dec(c)
+            k = rng.random()
+            if k < 0.35:
+                v = t                                            # exactly a double / exactly a tie
+            elif k < 0.6:
+                v = (t if "." in t else t + ".") + "0" * rng.randrange(0, 5) + "1"          # a hair above
+            elif k < 0.85:
+                # a hair below: decrement the last digit string
+                digs = t.replace("-", "").replace(".", "")
+                n = int(digs) * 1000 - 1
+                kk = (len(t.split(".")[1]) if "." in t else 0) + 3
+                d2 = str(abs(n)).rjust(kk + 1, "0")
+                v = ("-" if t.startswith("-") else "") + d2[:len(d2) - kk] + "." + d2[len(d2) - kk:] if n >= 0 else "-0.001"
+            else:
+                v = rng.choice([b, repr(f), "%.20g" % f, "%.17g" % up, "%.17g" % dn, "0", "-0", "1e400", "-1e400", "abc", "", "1e-400"])
+            if len(v) > 1200:
+                v = repr(f)
+            ops.append("realrange r=%s v=%s" % (hx(rtext), hx(v)))
+        self.stats["realrange_ops"] = self.stats.get("realrange_ops", 0) + len(ops)
+        return {"name": "rrng%d" % cid, "ops": ops, "sticky": 0}
+
     # ---------------------------------------------------------------- esl_getopts_CreateDefaultApp
     def defapp_case(self, cid):
         """the standard application start-up: Create + ProcessCmdline + VerifyConfig, then -h -> help page and exit(0),
@@ -1062,6 +1120,8 @@ class C14(Prop):
         "create_on_any_table", "create_never_crashes", "create_does_not_check_lists", "unknown_name_in_toggle_list",
         "unknown_name_in_required_list", "set_option_crash_site_unreachable",
         "displayHelp_fails_iff", "displayHelp_output_documented", "spoofed_cmdline_lists_set_and_on_options", "spoofCmdline_never_crashes", "defaultApp_returns_iff",
+        "flag_with_empty_value_is_usage_error", "empty_attached_value_is_the_argument", "empty_attached_value_consumes_nothing",
+        "empty_value_rejected_by_numeric_types", "empty_value_stored_by_string_types", "empty_value_char_is_terminator",
         "accepted_integer_satisfies_range_as_getter_returns_it",
         "strtod_rounds_to_nearest", "strtod_exact_on_representable", "strtod_rounding_monotone_in_binade", "strtod_monotone",
         "real_range_test_monotone", "inclusive_real_bound_accepts_every_true_member",
@@ -1248,6 +1308,18 @@ class C14(Prop):
                 for nm2 in names:
                     ops += [W("prog", nm2, x), "reuse"]
             cs.append({"name": "range-bounds-%s" % v, "ops": ops + ["dump"], "sticky": len(rows) + 1})
+        # `--name=` with an empty attached value, for every type, in every position, as command line and spoofed command line
+        rows = [opt_line("--flag", 0), opt_line("--int", 1, "5", None, "0<=n<=9"), opt_line("--real", 2, "0.5"), opt_line("--chr", 3, "m"),
+                opt_line("--chrr", 3, "m", None, "a<=c<=z"), opt_line("--str", 4), opt_line("--strd", 4, "dflt"), opt_line("--inf", 5), opt_line("--out", 6, "o.txt"),
+                opt_line("-s", 4), opt_line("--tog1", 4, None, None, None, "--tog2"), opt_line("--tog2", 4, "on", None, None, "--tog1")]
+        ops = rows + ["create"]
+        for nm in ("--flag", "--int", "--real", "--chr", "--chrr", "--str", "--strd", "--inf", "--out", "--tog1", "--tog2", "--st", "--fl", "--in", "--zz"):
+            for ws in ([nm + "="], [nm + "=", "next", "x"], [nm + "=", "--flag"], ["--flag", nm + "="], [nm + "=", "--", "-x"], [nm + "==v"], [nm, ""], [nm + "=", nm + "="]):
+                ops += [W("prog", *ws), "verify", "dump", "spoofcmd", "reuse"]
+                if "" not in ws:
+                    ops += ["spoof s=" + hx(" ".join(["prog"] + ws)), "dump", "reuse"]
+        ops += [W("prog", "-s", "", "x"), "dump", "reuse", W("prog", "-s=", "x"), "dump", "reuse", W("prog", "-s", "=", "x"), "dump", "reuse"]
+        cs.append({"name": "empty-attached-value", "ops": ops, "sticky": len(rows) + 1})
         # integers beyond the int range: the range check and GetInteger read the same atoi() value
         bigs = [str(x) for x in (2 ** 31 - 1, 2 ** 31, -2 ** 31, -2 ** 31 - 1, 2 ** 32 - 1, 2 ** 32, 2 ** 32 + 1, 2 ** 32 + 5, 2 ** 32 + 10, -2 ** 32 + 5, 2 ** 33,
                                 2 ** 63 - 1, 2 ** 63, 2 ** 63 + 5, -2 ** 63, -2 ** 63 - 1, 2 ** 64, 2 ** 64 + 5, 10 ** 20, 10 ** 20 + 5, -10 ** 25,
@@ -1357,6 +1429,13 @@ class C14(Prop):
                     na = int(dict(x.split("=", 1) for x in op.split()[1:])["nargs"])
                     if m and na != -1 and int(m.group(1)) != na:
                         return Failure("monitor", "CreateDefaultApp returned with %s arguments although exactly %d were required" % (m.group(1), na))
+            return None
+        if case.get("name", "").startswith("rrng"):
+            for op, l in zip(case["ops"], out):
+                k = "realrange:" + l.split()[0]
+                self._out_stats[k] = self._out_stats.get(k, 0) + 1
+                if not re.match(r"(ok bits=[0-9a-f]{16}|esyntax msg)$", l) and not l.startswith("fault"):
+                    return Failure("monitor", "a real argument was neither accepted nor refused with a message: %r for %s" % (l, op[:200]))
             return None
         if case.get("name", "").startswith("atof"):
             for op, l in zip(case["ops"], out):
